@@ -48,6 +48,14 @@ def call(ip, name, args, kw):
         return out
     if name in ("array",) or name in _CASTS:
         a = args[0]
+        if getattr(ip, "strict_real_casts", False):
+            # opt-in (rules about complex data reaching a kernel): a cast to a real floating type keeps the real part only
+            dt = kw.get("dtype", args[1] if len(args) > 1 and name in ("array", "asarray", "ascontiguousarray", "asfarray") else None)
+            is_real_dt = name in ("float64", "float32", "float_", "double", "asfarray") or (
+                isinstance(dt, tuple) and len(dt) == 2 and dt[1] in ("float64", "float32", "float_", "double")) or (isinstance(dt, tuple) and dt == ("builtin", "float"))
+            if is_real_dt:
+                arr = to_obj_array(a) if isinstance(a, (list, tuple, np.ndarray)) else None
+                return vmap(sp.re, arr) if arr is not None else sp.re(S(a))
         if isinstance(a, np.ndarray):
             return a.copy() if name == "array" and kw.get("copy", True) is not False else a
         if isinstance(a, (list, tuple)):
